@@ -15,6 +15,7 @@
                   pin = power_target - gain_target; minimum-gain allowance 3 dB for EDFAs, none for Raman; candidates
                   are kept on gain_min > 0 then power > 0, with the 0.3 dB fall-back around the best power.
  Rm memo          : every memoisation construct in the functions behind this property is keyed by everything it reads.
+ Rp presence      : optional numeric fields are tested with `is None` / membership, never by truthiness (0 is a value).
 """
 import ast
 
@@ -395,5 +396,10 @@ from ..memo import rule_for as _memo_rule
 
 RULES_MEMO = ('Rm.memo', _memo_rule('C10', 'a model would be ranked or judged with the figures of another library or gain'))
 
+
+from ..presence import rule_for as _presence_rule
+
+RULES_PRESENCE = ('Rp.presence', _presence_rule('C10', 'a legal zero would be read as missing'))
+
 RULES = [('R1.precedence', r1_precedence), ('R2.band-cover', r2_band_cover), ('R3.selection', r3_selection),
-         ('R4.raman-gate', r4_raman_gate), ('R5.capability', r5_capability), RULES_MEMO]
+         ('R4.raman-gate', r4_raman_gate), ('R5.capability', r5_capability), RULES_MEMO, RULES_PRESENCE]
